@@ -169,6 +169,13 @@ def execute(case):
                 if {w.id: free_gpu(w) for w in workers} != free:
                     bad("side_effect", f"schedule() changed the live workers: free GPUs {free} -> { {w.id: free_gpu(w) for w in workers} }")
                 batches = {}
+                decided = {}
+                for p in placements:
+                    if p.placement_type in (Placement.PlacementType.CANCEL_TASK, Placement.PlacementType.PLACE_TASK):
+                        decided.setdefault(p.task.unique_name, []).append(p.placement_type.name + ("" if p.placement_type == Placement.PlacementType.CANCEL_TASK or p.is_placed() else "(unplaced)"))
+                for name, ds in decided.items():
+                    if len(ds) > 1:
+                        bad("several_decisions_for_one_request", f"t={now}: {name} answered with {ds} in one invocation")
                 for p in placements:
                     if p.placement_type == Placement.PlacementType.CANCEL_TASK:
                         r = requests.get(p.task.unique_name)
